@@ -621,6 +621,36 @@ pub fn crypt() -> Frag {
     Frag { name: "crypt", objs, slots, trailer: "/Root 1 0 R /Encrypt 6 0 R /ID [(0123456789abcdef) (0123456789abcdef)]".into() }
 }
 
+/// numeric fields of the catalog / page level
+pub fn page_numbers() -> Frag {
+    let objs = vec![
+        (1, Body::Plain("<< /Type /Catalog /Pages 2 0 R /Outlines << /Count {4} >> /StructTreeRoot << /Type /StructTreeRoot /K [] >> >>".into())),
+        (2, Body::Plain("<< /Type /Pages /Kids [3 0 R] /Count 1 /MediaBox [{0} {1} 10 10] /CropBox [0 0 {0} {1}] >>".into())),
+        (3, Body::Plain("<< /Type /Page /Parent 2 0 R /Resources << /ExtGState << /G0 << /LW {2} /LC {3} /LJ {3} /OPM {2} /Font [4 0 R {2}] >> >> >> /Rotate {2} /TrimBox [{1} {0} 1 1] >>".into())),
+        (4, Body::Plain("<< /Type /Font /Subtype /Type1 /BaseFont /Helvetica >>".into())),
+    ];
+    let slots = vec![num_slot("0"), num_slot("0"), num_slot("90"), num_slot("1"), num_slot("0")];
+    Frag { name: "page-numbers", objs, slots, trailer: "/Root 1 0 R /Size {4}".into() }
+}
+
+/// direct nesting of arrays / dictionaries beyond the parser's depth limit (20), in an object and in a
+/// content stream
+pub fn parser_depth(n: usize, dict: bool) -> Planted {
+    let mut v = "7".to_string();
+    for _ in 0..n {
+        v = if dict { format!("<< /K {} >>", v) } else { format!("[{}]", v) };
+    }
+    let mut objs = catalog_with("");
+    objs.push((4, Body::Plain(format!("<< /Properties << /P0 << /Deep {} >> >> >>", v))));
+    objs.push((6, Body::Plain(v.clone())));
+    objs.push((7, Body::Stream(String::new(), None, format!("/P0 {} DP q Q", v).into_bytes())));
+    objs[2].1 = Body::Plain("<< /Type /Page /Parent 2 0 R /Resources 4 0 R /Contents [5 0 R 7 0 R] >>".into());
+    let f = Frag { name: "parser-depth", objs, slots: vec![], trailer: "/Root 1 0 R".into() };
+    let mut p = f.instantiate(&[]);
+    p.desc = format!("parser-depth[{} n={}]", if dict { "dict" } else { "array" }, n);
+    p
+}
+
 /// annotations and their appearance dictionaries (nested dictionaries of appearance states)
 pub fn annotations(k: usize) -> Frag {
     let t: Vec<u64> = (10..10 + k as u64).collect();
